@@ -13,6 +13,7 @@
 #include <fcppt/output_to_std_string.hpp>
 #include <fcppt/output_to_std_wstring.hpp>
 #include <fcppt/widen_locale.hpp>
+#include <fcppt/endianness/convert.hpp>
 #include <fcppt/endianness/swap.hpp>
 #include <fcppt/enum/from_string.hpp>
 #include <fcppt/enum/input.hpp>
@@ -41,6 +42,7 @@
 #include <ostream>
 #include <stdexcept>
 #include <string>
+#include <thread>
 #include <vector>
 #include "core/main.hpp"
 #include "seams/codecvt.hpp"
@@ -861,12 +863,27 @@ struct World
       case 4: SIM_CHECK(fcppt::endianness::swap(fcppt::endianness::swap(static_cast<std::uint32_t>(bits))) == static_cast<std::uint32_t>(bits), "swap-twice", "u32"); break;
       default: SIM_CHECK(fcppt::endianness::swap(fcppt::endianness::swap(bits)) == bits, "swap-twice", "u64"); break;
       }
+      // and once is the byte reversal (for every width; io no longer goes through swap)
+      if (type_size(v.type) == 2)
+        SIM_CHECK(fcppt::endianness::swap(static_cast<std::uint16_t>(bits)) == __builtin_bswap16(static_cast<std::uint16_t>(bits)), "swap-value", "u16");
       if (type_size(v.type) == 4)
         SIM_CHECK(fcppt::endianness::swap(static_cast<std::uint32_t>(bits)) == __builtin_bswap32(static_cast<std::uint32_t>(bits)), "swap-value", "u32");
+      if (type_size(v.type) == 8)
+      {
+        SIM_CHECK(fcppt::endianness::swap(bits) == __builtin_bswap64(bits), "swap-value", "u64");
+        SIM_CHECK(fcppt::endianness::swap(static_cast<std::int64_t>(bits)) == static_cast<std::int64_t>(__builtin_bswap64(bits)), "swap-value", "i64");
+      }
+      // endianness::convert: identity for the native format, the reversal for the other one
+      SIM_CHECK(fcppt::endianness::convert(static_cast<std::uint32_t>(bits), std::endian::native) == static_cast<std::uint32_t>(bits), "convert-value", "native");
+      SIM_CHECK(fcppt::endianness::convert(static_cast<std::uint32_t>(bits), std::endian::native == std::endian::little ? std::endian::big : std::endian::little) == __builtin_bswap32(static_cast<std::uint32_t>(bits)), "convert-value", "non-native");
     }
     // the text round trips run with allocation failures enabled (`alloc:k`: the k-th allocation of
     // this operation throws): a conversion hit by one reports it (bad_alloc, or nothing from
     // extract) or returns the complete text - and the conversions after it are not affected
+    // Half of the time the whole section runs on a thread of its own (the harness waits for it):
+    // whatever an implementation keeps per thread between calls starts from scratch there, so its
+    // growth paths are taken in every such run and not only in the first ones of a process.
+    auto const section = [&] {
     struct AllocOn
     {
       AllocOn() { sim::fault::st().alloc_off = false; }
@@ -878,6 +895,23 @@ struct World
       int const y = static_cast<int>(r.next());
       std::string const want_x = std::to_string(x);
       std::string const want_y = std::to_string(y);
+      // a text longer than any converted before in this process now and then (an implementation
+      // that keeps a stream between calls grows its buffer exactly then)
+      try
+      {
+        std::string const big(static_cast<std::size_t>(r.below(12) == 0 ? r.below(600) : r.below(40)), 'x');
+        std::string got_big;
+        {
+          sim::fault::Sut s;
+          got_big = fcppt::output_to_std_string(big);
+        }
+        SIM_CHECK(got_big == big, got_big.size() < big.size() ? "silent-truncation" : "string-roundtrip", "output_to_std_string of a string of " + std::to_string(big.size()) + " characters returned " + std::to_string(got_big.size()));
+      }
+      catch (std::bad_alloc const &)
+      {
+        SIM_CHECK(sim::fault::fired(sim::fault::alloc), "undocumented-exception", "bad_alloc without an injected failure");
+        ctx.probe("text_conversion_reported_bad_alloc");
+      }
       bool const fired_before = sim::fault::fired(sim::fault::alloc);
       try
       {
@@ -910,6 +944,10 @@ struct World
         SIM_CHECK(sim::fault::fired(sim::fault::alloc), "undocumented-exception", "bad_alloc without an injected failure");
         ctx.probe("text_conversion_reported_bad_alloc");
       }
+      catch (std::ios_base::failure const &e)
+      {
+        sim::violate("string-roundtrip", std::string("a text conversion that no fault was injected into threw std::ios_base::failure (") + e.what() + ")" + (fired_before ? " - an EARLIER conversion of this history was hit by an allocation failure" : ""));
+      }
       // the same for a composite value: a vector's text through output_to_std_(w)string
       {
         using vec3l = fcppt::math::vector::static_<long long, 3>;
@@ -938,6 +976,30 @@ struct World
       auto e = fcppt::enum_::from_string<color>(std::string{fcppt::enum_::to_string(c)});
       SIM_CHECK(e.has_value() && e.get_unsafe() == c, "enum-roundtrip", "to_string/from_string");
     }
+    };
+    if (op.get("th") != 0)
+    {
+      std::exception_ptr error;
+      bool const in_sut = sim::fault::st().in_sut;
+      std::thread worker([&] {
+        try
+        {
+          section();
+        }
+        catch (...)
+        {
+          error = std::current_exception();
+        }
+      });
+      worker.join();
+      sim::fault::st().in_sut = in_sut;
+      sim::fault::st().alloc_off = true;
+      ctx.probe("text_conversions_on_a_fresh_thread");
+      if (error)
+        std::rethrow_exception(error);
+    }
+    else
+      section();
     ctx.ev("pure");
   }
 
@@ -1105,7 +1167,7 @@ void generate(sim::Rng &rng, sim::Plan &p, bool)
     }
     else
     {
-      op = sim::Op("pure").set("vs", vs);
+      op = sim::Op("pure").set("vs", vs).set("th", static_cast<long>(rng.below(2)));
       if (faulty && rng.chance(1, 2))
         op.sets("fault", "alloc:" + std::to_string(rng.range(1, 10)));
     }
